@@ -176,8 +176,6 @@ def gen_cases(tier, rng):
             for p in ([pal, "h"] if o in ("sv", "su", "se") else [pal]):
                 nv = rng.randint(1, 12)
                 ops = ["%s:%d:20:%s" % (o, nv, p), "save:0", "%s:%d:21:%s" % (o, nv, p), "save:1"]
-                if o == "se" and g in ("SSE", "FO4", "FO76") and rng.random() < 0.7:
-                    ops = ops[:1] + ["sn:%d:22:u" % nv]      # most eye-data cases stop before the save (see known finding)
                 small.append(mk_case(rng, g, nv, rng.randint(0, 8), nv, rng.choice([nv, -1]), nv, ops))
     # (4) limits: 65535 / 65536 vertices, triangle-count limits
     lim = [("SSE", 65535, 65535), ("SSE", 65536, 65536), ("SK", 65536, 65536), ("FO4", 65535, 70000), ("OB", 65535, 65535),
@@ -565,6 +563,25 @@ def spec_check(case, isteps):
 
 
 # running ----------------------------------------------------------------------------------------
+def finding_status(kid):
+    for k in vlib.load_known():
+        if k.get("id") == kid:
+            return k.get("status")
+    return None
+
+
+def report_finding(rep, kid, detail, case, extra=None):
+    """a recorded defect class was recognised: a KNOWN-FINDING while it is recorded as known, a VIOLATION
+    once it is recorded as fixed (the defect has come back)"""
+    if finding_status(kid) == "known":
+        rep.known_finding(kid, detail)
+        return 0
+    d = {"case": case, "family": FAM, "finding": kid, "detail": detail}
+    d.update(extra or {})
+    rep.violation("a defect recorded as fixed is back: " + kid, d)
+    return 1
+
+
 def run_parallel(binp, cases, chunk, timeout, env=None):
     chunks = [cases[i:i + chunk] for i in range(0, len(cases), chunk)]
     with cf.ThreadPoolExecutor(max_workers=max(2, vlib.NPROC - 2)) as ex:
@@ -628,8 +645,10 @@ def run(tier, seed, replay=None):
         if crash is not None:
             err = crash.get("stderr", "")
             model_faults_at_save = any(s["fault"] and s["op"].startswith("save") for s in msteps)
-            if "VertexData.hpp:86" in err and "shift exponent" in err and has_eye_before_save(c) and model_faults_at_save:
-                rep.known_finding("C13-eyedata-desc-shift", c[:200])
+            if "VertexData.hpp:86" in err and "shift exponent" in err and has_eye_before_save(c):
+                if report_finding(rep, "C13-eyedata-desc-shift", c[:200], c, {"crash": crash}):
+                    nspec += 1
+                    continue
                 nknown += 1
                 if plain_bin is None:
                     plain_bin = vlib.build_oracle("plain")
@@ -640,7 +659,8 @@ def run(tier, seed, replay=None):
                     continue
                 # the model stops at the undefined shift: compare the steps before it, evaluate the property on all
                 isteps = parse_line(il, "I")
-                msteps = msteps[:next(i for i, s in enumerate(msteps) if s["fault"])]
+                if model_faults_at_save:
+                    msteps = msteps[:next(i for i, s in enumerate(msteps) if s["fault"])]
             else:
                 rep.violation("implementation crashed (sanitizer/abort/timeout) on an API call sequence inside the model's domain",
                               {"case": c, "family": FAM, "crash": crash})
@@ -673,8 +693,10 @@ def run(tier, seed, replay=None):
         # the property on the implementation
         fails, known = spec_check(c, isteps) if kv(c).get("g") != "X" else ([], [])
         for kid, det in known:
-            rep.known_finding(kid, det)
-            nknown += 1
+            if report_finding(rep, kid, det, c):
+                nspec += 1
+            else:
+                nknown += 1
         for what, det in fails[:3]:
             det = dict(det)
             det.update({"case": c, "family": FAM})
